@@ -70,8 +70,9 @@ fn validate_field<'a>(
 
     let pre_coercion_type_name = get_underlying_named_type(&field_def.ty.node).as_ref();
     let field_type_name = if let Some(coerced) = &node.coerced_to {
-        let pre_coercion_type_definition = &schema.vertex_types[pre_coercion_type_name];
-        if let TypeKind::Interface(_) = &pre_coercion_type_definition.kind {
+        // Property fields have scalar types, which are not vertex types and cannot be coerced either.
+        let pre_coercion_type_definition = schema.vertex_types.get(pre_coercion_type_name);
+        if let Some(TypeKind::Interface(_)) = pre_coercion_type_definition.map(|defn| &defn.kind) {
         } else {
             // Only interface types may be coerced into other types. This is not an interface.
             return Err(FrontendError::ValidationError(
